@@ -265,7 +265,7 @@ func globalMapRows(g *ssa.Global) []mapRow {
 // constants, functions, and conversions of those.
 func portable(v ssa.Value, sameFn bool) bool {
 	switch x := v.(type) {
-	case *ssa.Const, *ssa.Function:
+	case *ssa.Const, *ssa.Function, *ssa.Global:
 		return true
 	case *ssa.ChangeType:
 		return portable(x.X, sameFn)
@@ -281,7 +281,7 @@ func portable(v ssa.Value, sameFn bool) bool {
 // and returns the value to use.
 func materialise(v ssa.Value, b *ssa.BasicBlock, sameFn bool) ssa.Value {
 	switch x := v.(type) {
-	case *ssa.Const, *ssa.Function:
+	case *ssa.Const, *ssa.Function, *ssa.Global:
 		return v
 	case *ssa.ChangeType, *ssa.MakeInterface, *ssa.Convert:
 		if sameFn {
@@ -1086,4 +1086,98 @@ func tailDuplicate(fn *ssa.Function, J *ssa.BasicBlock) bool {
 	invalidateDom(fn)
 	rebuildReferrers(fn)
 	return true
+}
+
+// splitCriticalEdgesInto gives every predecessor of J that also branches
+// elsewhere an empty block of its own on the edge to J.
+func splitCriticalEdgesInto(fn *ssa.Function, J *ssa.BasicBlock) {
+	changed := false
+	for i, p := range J.Preds {
+		if len(p.Succs) < 2 {
+			continue
+		}
+		E := newBlock(fn, "edge")
+		j := &ssa.Jump{}
+		setBlock(j, E)
+		E.Instrs = []ssa.Instruction{j}
+		E.Succs = []*ssa.BasicBlock{J}
+		E.Preds = []*ssa.BasicBlock{p}
+		// one edge at a time: the i-th predecessor entry corresponds to one of p's successor slots
+		nth := 0
+		for k := 0; k < i; k++ {
+			if J.Preds[k] == p {
+				nth++
+			}
+		}
+		seen := 0
+		for si, s := range p.Succs {
+			if s == J {
+				if seen == nth {
+					p.Succs[si] = E
+					break
+				}
+				seen++
+			}
+		}
+		J.Preds[i] = E
+		spliceAfter(fn, p, []*ssa.BasicBlock{E})
+		changed = true
+	}
+	if changed {
+		invalidateDom(fn)
+	}
+}
+
+// specialiseConstIndex: a block that selects a row of a literal table (or a
+// key of a literal map) by a phi of constants — `texts[verdict]` after the
+// branches have set verdict — is copied per incoming edge, so that each copy
+// indexes with its constant and the row can be read off.
+func specialiseConstIndex(fn *ssa.Function) bool {
+	for _, J := range fn.Blocks {
+		if len(J.Preds) < 2 {
+			continue
+		}
+		want := false
+		for _, in := range J.Instrs {
+			var idx, table ssa.Value
+			switch x := in.(type) {
+			case *ssa.IndexAddr:
+				idx, table = x.Index, tableOf(x.X)
+			case *ssa.Index:
+				idx, table = x.Index, tableOf(x.X)
+			case *ssa.Lookup:
+				if _, isMap := x.X.Type().Underlying().(*types.Map); isMap && literalMapRows(x.X, x) != nil {
+					idx, table = x.Index, x.X
+				}
+			}
+			if idx == nil || table == nil {
+				continue
+			}
+			phi, ok := idx.(*ssa.Phi)
+			if !ok || phi.Block() != J {
+				continue
+			}
+			allConst := true
+			for _, e := range phi.Edges {
+				if c, isC := e.(*ssa.Const); !isC || c.Value == nil {
+					allConst = false
+				}
+			}
+			if !allConst {
+				continue
+			}
+			if _, isLk := in.(*ssa.Lookup); !isLk && len(rowInits(table)) == 0 {
+				continue
+			}
+			want = true
+		}
+		if !want {
+			continue
+		}
+		splitCriticalEdgesInto(fn, J)
+		if tailDuplicate(fn, J) {
+			return true
+		}
+	}
+	return false
 }
